@@ -419,8 +419,8 @@ func (g *Gen) oracleRound() {
 	}
 }
 
-var extremeAmounts = []string{"0", "1", "-1", "-1000000000000000000", "115792089237316195423570985008687907853269984665640564039457584007913129639935",
-	"115792089237316195423570985008687907853269984665640564039457584007913129639936", "57896044618658097711785492504343953926634992332820282019728792003956564819968",
+var extremeAmounts = []string{"0", "1", "-1", "-1000000000000000000", "57896044618658097711785492504343953926634992332820282019728792003956564819967",
+	"-57896044618658097711785492504343953926634992332820282019728792003956564819967", "28948022309329048855892746252171976963317496166410141009864396001978282409984",
 	"1000000000000000000", "340282366920938463463374607431768211456", "nil"}
 
 func (g *Gen) advEvent() {
